@@ -71,22 +71,9 @@ def treeOp (j : Json) : Except String Json := do
   let s0 ← initOf j
   pure (Json.arr (tree p alpha depth s0 #[]))
 
-/-- `np.isclose(a, b, rtol)` with the default `atol = 1e-8`, exactly -/
-def isclose (rtol : Rat) (a b : Rat) : Bool := absR (a - b) ≤ (1 : Rat) / 100000000 + rtol * absR b
-
-/-- hand-over: `{"op":"pick_mpe","plot":"stab",..,"sel_freq":[..],"ind":[..],"rtol":..}` → `Fn` or null -/
-def mpeOp (j : Json) : Except String Json := do
-  match (← plotOfJson j) with
-  | .stab t =>
-    let f ← listOf ratOfJson (← field j "sel_freq")
-    let o ← listOf natOfJson (← field j "ind")
-    let rtol ← ratOfJson (← field j "rtol")
-    match mpeList (isclose rtol) t f o with
-    | none => pure Json.null
-    | some l => pure (listToJson ratToJson l)
-  | _ => throw "stab expected"
+-- the hand-over to extraction is compared through C11's ops `ssi_mpe` / `plscf_mpe` (`Ops/C11.lean`).
 
 def ops : List (String × (Json → Except String Json)) :=
-  [("pick_replay", replayOp), ("pick_tree", treeOp), ("pick_mpe", mpeOp)]
+  [("pick_replay", replayOp), ("pick_tree", treeOp)]
 
 end PV.Ops.C16
